@@ -1067,6 +1067,9 @@ def c15(scn):
 
 # ----------------------------------------------------------------------------- C18
 
+MESH_NMAX = 20
+
+
 def c18(scn):
     """mesh connectivity / boundary / areas recomputed from the triangles in exact rationals"""
     fails = []
@@ -1083,6 +1086,17 @@ def c18(scn):
         return fails
     # expected construction result
     expect_err = None
+    # node degree above the mesh type's maximum number of neighbours (20): the fixed-width tables
+    # built on the mesh cannot hold the node's rows, the constructor must refuse (D15)
+    deg = {}
+    for tr in tris:
+        for a_, b_ in ((tr[1], tr[2]), (tr[2], tr[0]), (tr[0], tr[1])):
+            deg.setdefault(a_, set()).add(b_)
+            deg.setdefault(b_, set()).add(a_)
+    if any(len(v - {k}) > MESH_NMAX for k, v in deg.items()):
+        if first != ["err", "invalid_argument"]:
+            fails.append(("mesh_degree_within_table_width", "a node has more than %d neighbours but construction gave %s" % (MESH_NMAX, first)))
+        return fails
     if stspec and stspec[0] == "map":
         ents = [(int(stspec[2 + 2 * k]), stspec[3 + 2 * k]) for k in range(int(stspec[1]))]
         for i, s_ in sorted(ents):
